@@ -6,9 +6,11 @@ cd /repo || exit 3
 if ! git diff --quiet; then echo "/repo has uncommitted changes"; exit 3; fi
 git apply "$patch" || { echo "patch does not apply"; exit 3; }
 cd /verif
+export VERIF_EVIDENCE_DIR=/dev/shm/seedtest-evidence
 for c in "$@"; do
   out=$(timeout 900 ./check "$c" --tier "${TIER:-quick}" 2>&1); rc=$?
   echo "== $c rc=$rc"
   echo "$out" | grep -E "oracle|VIOLATION|HARNESS" | cut -c1-400 | head -6
 done
-git -C /repo checkout -- . 
+git -C /repo checkout -- .
+rm -rf /dev/shm/seedtest-evidence 
